@@ -41,10 +41,10 @@ Definition same_design (a b : netlist) : Prop :=
 
 (* full statements (false of the code as it is: F14b, F14c) *)
 Definition solution_netlist_rt_statement : Prop :=
-  forall sqrt_o e doc n t, read_netlist sqrt_o e doc = Ok n -> solution_to_netlist n [] = Some t ->
+  forall sqrt_o e doc n t, read_netlist sqrt_o e doc = Ok n -> solution_to_netlist_found n [] = Some t ->
   exists n', read_netlist sqrt_o e t = Ok n' /\ same_design n n'.
 Definition legal_netlist_rt_statement : Prop :=
-  forall sqrt_o e doc n t, read_netlist sqrt_o e doc = Ok n -> legal_netlist n = Some t ->
+  forall sqrt_o e doc n t, read_netlist sqrt_o e doc = Ok n -> legal_netlist_found n = Some t ->
   exists n', read_netlist sqrt_o e t = Ok n' /\ same_design n n'.
 
 (* the epsilons the refutations run with (already defined: sqrt is not consulted) *)
@@ -67,9 +67,9 @@ Definition doc_terminal : ytree :=
               [YList [YStr "A"; YStr "T"]].
 
 Lemma solution_netlist_rt_refuted : forall sqrt_o,
-  (exists n t n', read_netlist sqrt_o eps_ref doc_weight = Ok n /\ solution_to_netlist n [] = Some t /\
+  (exists n t n', read_netlist sqrt_o eps_ref doc_weight = Ok n /\ solution_to_netlist_found n [] = Some t /\
                   read_netlist sqrt_o eps_ref t = Ok n' /\ map n_weight (nl_nets n') <> map n_weight (nl_nets n)) /\
-  (exists n t r, read_netlist sqrt_o eps_ref doc_terminal = Ok n /\ solution_to_netlist n [] = Some t /\
+  (exists n t r, read_netlist sqrt_o eps_ref doc_terminal = Ok n /\ solution_to_netlist_found n [] = Some t /\
                  read_netlist sqrt_o eps_ref t = Reject r).
 Proof.
   intro sqrt_o. split.
@@ -86,7 +86,7 @@ Definition doc_weight_rects : ytree :=
               [YList [YStr "A"; YStr "B"; yfloat (qc 5 2)]].
 
 Lemma legal_netlist_rt_refuted : forall sqrt_o,
-  exists n t n', read_netlist sqrt_o eps_ref doc_weight_rects = Ok n /\ legal_netlist n = Some t /\
+  exists n t n', read_netlist sqrt_o eps_ref doc_weight_rects = Ok n /\ legal_netlist_found n = Some t /\
                  read_netlist sqrt_o eps_ref t = Ok n' /\
                  map n_weight (nl_nets n') <> map n_weight (nl_nets n) /\
                  map mr_region (nl_rects n') <> map mr_region (nl_rects n).
